@@ -8,7 +8,8 @@ seeker.  Correspondence: a malformed content stream (random bytes, NUL/CR, lone
 continuation bytes, truncated multi-byte sequences at line and 64-byte window
 boundaries, look-alike timestamps, 0- and 1-byte lines, no final LF) x the four decode
 policies x with/without file-level and per-search since constraints; observed outcome
-kind, results, and a per-case wall-clock bound as the hang detector.
+kind, results, and the per-case watchdog (core.time_limit: no sign of life past the nominal
+limit, or a CPU / wall-clock backstop) as the hang detector.
 """
 from vh import core, gen, scenario as S, seekcheck as K, taskcheck as T
 
@@ -172,5 +173,10 @@ def run(tier, seed, replay_case=None):
         T.judge_run(rep, scn, impl, mr)
     rep.assumptions = ["CPython re run time on the pool's patterns (a pathological *pattern* "
                        "could be exponential; the claim is about content)",
-                       "per-case wall-clock limit of %d s as the hang detector" % core.SINGLE_LIMIT]
+                       "hang detector: a run is reported as not terminating when, after %d s, it "
+                       "shows no sign of life for a quarter of that time (no results handed over, "
+                       "< 5 %% of a core used) or has consumed %d CPU-seconds / %d s of wall-clock "
+                       "time (core.time_limit)" % (core.SINGLE_LIMIT,
+                                                   core.CPU_FACTOR * core.SINGLE_LIMIT,
+                                                   core.HARD_FACTOR * core.SINGLE_LIMIT)]
     return rep.finish(aud, RULE)
